@@ -1247,6 +1247,17 @@ def write_trace(path, scs):
     return len(index), index
 
 
+def tlc_retry(module, **kw):
+    """spec/Array.tla is edited by other sessions: a parse failure at the moment of a save is retried"""
+    for attempt in range(5):
+        r = vlib.run_tlc(module, **kw)
+        if "Parsing or semantic analysis failed" in r.out and attempt < 4:
+            time.sleep(12)
+            continue
+        return r
+    return r
+
+
 def validate(scs, tag, keep=False, timeout=900):
     """TLC on ReportsTrace for executions with the same disk count.  Returns (findings, states, generated) where a
     finding is the TLC record {line, ev, check, detail} plus 'scenario' and 'event' indices."""
@@ -1256,10 +1267,10 @@ def validate(scs, tag, keep=False, timeout=900):
     cfg = os.path.join(vlib.OUT, "traces", tag + ".cfg")
     n, index = write_trace(path, scs)
     with open(cfg, "w") as f:
-        f.write("SPECIFICATION Spec\nINVARIANT NoFinding\nPOSTCONDITION Accepted\nCHECK_DEADLOCK FALSE\n")
+        f.write("SPECIFICATION Spec\nINVARIANT NoFinding\nALIAS Brief\nPOSTCONDITION Accepted\nCHECK_DEADLOCK FALSE\n")
     if os.path.exists(found):
         os.remove(found)
-    res = vlib.run_tlc("ReportsTrace", cfg=cfg, workers=1, env={"TRACE": path, "FOUND": found}, timeout=timeout, tag=tag, xmx="4g")
+    res = tlc_retry("ReportsTrace", cfg=cfg, workers=1, env={"TRACE": path, "FOUND": found}, timeout=timeout, tag=tag, xmx="4g")
     if res.error and not res.violated:
         raise vlib.ToolFailure("TLC on ReportsTrace (%s): %s\n%s" % (tag, res.error, res.out[-3000:]))
     if res.violated not in (None, "NoFinding"):
